@@ -42,7 +42,7 @@ from ..values import cn, show
 ALPHABET = [
     'a::[1 2 3]', 'a::[1.0 2.0 3.0]',
     'b::a', 'b::1_a', 'b::2#a', 'b::|a', 'b::a@[0 1]', 'b::a,[]', 'b::[],a', 'b::0:^a',
-    'a::a:=9,0', 'b::b:=9,0',
+    'a::a:=9,0', 'b::b:=9,0', 'b::b:=9.5,0', 'c::a:=0.5,1',      # integer and real values: a real into a real list needs no conversion
     'm::[[1 2] [3 4]]', 'r::*m', 'm::m:-7,[0 0]', 'r::r:=5,0',
     'f::{x:=0,0}', 'f(a)',
     'g::{[1 2 3]}', 'c::g()', 'c::c:=8,1',
@@ -55,7 +55,7 @@ ALPHABET = [
 
 # depth-4 alphabet of the thorough tier when the full one does not fit (see run()): one representative per mechanism
 REDUCED = [
-    'a::[1 2 3]', 'a::[1.0 2.0 3.0]', 'a::"xy"', 'b::a', 'b::1_a', 'b::a,[]', 'a::a:=9,0', 'b::b:=9,0',
+    'a::[1 2 3]', 'a::[1.0 2.0 3.0]', 'a::"xy"', 'b::a', 'b::1_a', 'b::a,[]', 'a::a:=9,0', 'b::b:=9,0', 'c::a:=0.5,1',
     'm::[[1 2] [3 4]]', 'r::*m', 'm::m:-7,[0 0]', 'r::r:=5,0', 'f::{x:=0,0}', 'f(a)', 'g::{[1 2 3]}', 'c::g()',
     'c::c:=8,1', '+/a', 'a*2', 'b::a*2', '.module(:q)', '.module(0)', 'd:::{[1 2]}', 'e::d', 'e,[3 4]',
     '{+/x*x}:>[1.0 2.0]',
